@@ -312,6 +312,9 @@ theorem SafeR.execCmd (h : Safe (isKey p) w) (hp : p < w.procs.size) (c : Cmd) (
     split
     · exact SafeR.skip h
     · exact SafeR.ret (h.evCancel_fst _) _ _
+  | cancelUserAll =>
+    simp only [Sim.execCmd]
+    exact SafeR.ret h.cancelUserAll_fst _ _
   | waitEvent v =>
     simp only [Sim.execCmd]
     split
